@@ -50,8 +50,31 @@ func PlainModulus(logN, bits int) uint64 {
 	return cands[0]
 }
 
+// PlainModulusAt is PlainModulus for a prime below num/den * 2^bits (a `bits`-bit plaintext modulus in the middle of
+// its range, so that 2t stays below a Q[0] of bits+1 bits).
+func PlainModulusAt(logN, bits int, num, den uint64) uint64 {
+	m := uint64(1) << (logN + 1)
+	around := (uint64(1) << (bits - 8)) / den * num << 8
+	cands := ref.PrimesNear(around, m, 8, true)
+	for _, p := range cands {
+		if p%(2*m) != 1 {
+			return p
+		}
+	}
+	return cands[0]
+}
+
 // Build constructs the parameters (panics on harness misuse).
 func (cf Conf) Build() bgv.Parameters {
+	p, err := cf.TryBuild()
+	if err != nil {
+		panic(fmt.Sprintf("bgvu.Build(%s): %v", cf.Name, err))
+	}
+	return p
+}
+
+// TryBuild constructs the parameters and returns the library's verdict.
+func (cf Conf) TryBuild() (bgv.Parameters, error) {
 	lit := bgv.ParametersLiteral{LogN: cf.LogN, PlaintextModulus: cf.T}
 	if len(cf.Q) > 0 {
 		lit.Q, lit.P = cf.Q, cf.P
@@ -67,11 +90,18 @@ func (cf Conf) Build() bgv.Parameters {
 			lit.P = uni.Primes(cf.LogN, cf.PBits, cf.NP)
 		}
 	}
-	p, err := bgv.NewParametersFromLiteral(lit)
-	if err != nil {
-		panic(fmt.Sprintf("bgvu.Build(%s): %v", cf.Name, err))
+	return bgv.NewParametersFromLiteral(lit)
+}
+
+// Q61 returns k NTT-friendly 61-bit primes at 0.9 * 2^61 (skipping the first `skip`): large enough for a 60-bit
+// plaintext modulus below Q[0]/2, far from the primes next to 2^61 that bgv.NewParameters takes for its internal
+// auxiliary basis.
+func Q61(logN, k, skip int) []uint64 {
+	r := make([]uint64, k)
+	for i := range r {
+		r[i] = PrimeBelow(logN, 61, 9, 10, skip+i)
 	}
-	return p
+	return r
 }
 
 // ---------------------------------------------------------------------------------------------
